@@ -514,3 +514,6 @@ Proof.
     apply N.eqb_eq in H1, H2, H5. apply eqb_prop in H3, H4. auto.
   - vm_compute. reflexivity.
 Qed.
+
+Lemma read_address_ok_fun : forall asz be, asz_ok asz -> read_address asz be = read_un (N.to_nat asz) be.
+Proof. intros asz be [->|[->|[->| ->]]]; reflexivity. Qed.
